@@ -3,7 +3,8 @@
 
   ops (see harness/C15.cpp):
     consts
-    sl  <c|x> <cap> <op>...                      sline op history
+    sl  <c|x> <cap> <op>...                      sline op history (ext tokens: N<int>:<hex>, c, s<len>,<cur>)
+    lc  <c|x> <cap> <depth> <maxlen> <keys-hex>  keys through readline_putchar, then readline_linecpy
     rl  <c|x> <cap> <depth> <keys-hex>           readline_putchar per key
     vt  <c|x> <cap> <depth> <echo> <keys-hex>    vterm per key
     vtx <c|x> <cap> <depth> <alpha> <L> <prefix-hex>
@@ -29,6 +30,25 @@ def slOp (cxx : Bool) (s : Sline) (tok : String) : Option (Sline × String) :=
       let d ← parseBytes? arg
       let r := s.newdata d d.length
       pure (r.1, slShow (if cxx then "v" else toString r.2) r.1)
+  | 'N' => do
+      -- N<int>:<hex>  sline_newdata(data, len) with the int length as given
+      match arg.splitOn ":" with
+      | [ns, hx] => do
+        let n ← ns.toInt?
+        let d ← parseBytes? hx
+        let r := s.newdataI d n
+        pure (r.1, slShow (if cxx then "v" else toString r.2) r.1)
+      | _ => none
+  | 'c' => let r := s.clear; some (r, slShow "0" r)
+  | 's' => do
+      -- s<len>,<cursor>  igris::sline::set_size_and_cursor
+      match arg.splitOn "," with
+      | [a, b] => do
+        let l ← a.toNat?
+        let c ← b.toNat?
+        let r := s.setSizeCursor l c
+        pure (r, slShow "0" r)
+      | _ => none
   | 'b' => do
       let n ← arg.toNat?
       let r := s.backspace n
@@ -155,6 +175,16 @@ def stepLine (_ : Unit) (line : String) : Unit × String :=
           " H" ++ toString rl.headhist ++ "," ++ toString rl.curhist ++ "," ++ toString (rstateNum rl.state) ++ "," ++
             bytesHex rl.hist
         pure (" ".intercalate rs ++ tail)
+    | ["lc", var, cap, depth, maxlen, keys] => do
+        -- keys through readline_putchar, then readline_linecpy into a destination of exactly maxlen bytes (0xAA)
+        let _ ← variant? var
+        let cap ← cap.toNat?
+        let depth ← depth.toNat?
+        let maxlen ← maxlen.toNat?
+        let ks ← parseBytes? keys
+        let (_, rl) := rlRun (Readline.init cap depth) ks
+        let r := rl.linecpy (List.replicate maxlen 0xAA) maxlen
+        pure (if rl.faulted ∨ r.2.2 then "fault" else toString r.2.1 ++ " " ++ bytesHex r.1)
     | ["vt", var, cap, depth, echo, keys] => do
         let cxx ← variant? var
         let cap ← cap.toNat?
